@@ -64,20 +64,22 @@ package index
 //@ extern (time.Time).Unix(t) r
 //@   ensures uint64(r) == unixsec(t)
 
-// Region contract: the tail of AddIndex from the computation of the new reference second
-// (writer.go "newFirstPacketTimeS := ...") to the final return.
+// Region contract: the tail of AddIndex from the check "were any streams added?" through the
+// computation of the new reference second (writer.go "newFirstPacketTimeS := ...") to the final return.
+// Both ways out report success: index.Merge reads false as "did not fit, continue in the next writer".
 //@ func (*Writer).AddIndex
 //@   prop C07
-//@   start before call time.Unix#1
+//@   start before call len#13
+//@   ensures fits: result0
 //@   nosafety
 //@   noframe
 //@   requires 0 <= streamCountBefore && streamCountBefore <= len(w.streams)
-//@   ensures oldkept: forall(k, 0, streamCountBefore, w.streams[k].FirstPacketTimeNS == old(w.streams[k].FirstPacketTimeNS) + (old(w.header.FirstPacketTime) - w.header.FirstPacketTime) * 1000000000 && \
+//@   ensures oldkept: old(len(w.streams)) == streamCountBefore || forall(k, 0, streamCountBefore, w.streams[k].FirstPacketTimeNS == old(w.streams[k].FirstPacketTimeNS) + (old(w.header.FirstPacketTime) - w.header.FirstPacketTime) * 1000000000 && \
 //@       w.streams[k].LastPacketTimeNS == old(w.streams[k].LastPacketTimeNS) + (old(w.header.FirstPacketTime) - w.header.FirstPacketTime) * 1000000000)
-//@   ensures newkept: forall(k, streamCountBefore, len(w.streams), w.streams[k].FirstPacketTimeNS == old(w.streams[k].FirstPacketTimeNS) + (r.header.FirstPacketTime - w.header.FirstPacketTime) * 1000000000 && \
+//@   ensures newkept: old(len(w.streams)) == streamCountBefore || forall(k, streamCountBefore, len(w.streams), w.streams[k].FirstPacketTimeNS == old(w.streams[k].FirstPacketTimeNS) + (r.header.FirstPacketTime - w.header.FirstPacketTime) * 1000000000 && \
 //@       w.streams[k].LastPacketTimeNS == old(w.streams[k].LastPacketTimeNS) + (r.header.FirstPacketTime - w.header.FirstPacketTime) * 1000000000)
-//@   ensures refmin: implies(streamCountBefore != 0, w.header.FirstPacketTime <= old(w.header.FirstPacketTime))
-//@   ensures len(w.streams) == old(len(w.streams))
+//@   ensures refmin: implies(streamCountBefore != 0 && old(len(w.streams)) != streamCountBefore, w.header.FirstPacketTime <= old(w.header.FirstPacketTime))
+//@   ensures old(len(w.streams)) == streamCountBefore || len(w.streams) == old(len(w.streams))
 //@   loop 11 invariant -1 <= rangeindex && rangeindex < streamCountBefore && streamCountBefore <= len(w.streams) && len(w.streams) == old(len(w.streams))
 //@   loop 11 invariant forall(k, 0, rangeindex+1, w.streams[k].FirstPacketTimeNS == old(w.streams[k].FirstPacketTimeNS) + oldTimeDiffNS && w.streams[k].LastPacketTimeNS == old(w.streams[k].LastPacketTimeNS) + oldTimeDiffNS)
 //@   loop 11 invariant forall(k, rangeindex+1, len(w.streams), w.streams[k].FirstPacketTimeNS == old(w.streams[k].FirstPacketTimeNS) && w.streams[k].LastPacketTimeNS == old(w.streams[k].LastPacketTimeNS))
